@@ -5,6 +5,8 @@ package main
 //
 //   for i := 0; i < len(C); i++ { … C[i] … }     →   for i, elem_N := range C { … elem_N … }
 //   for k, v := range f(x) { … }                  →   { rng_N := f(x); for k, v := range rng_N { … } }
+//   if a, ok := E.(T); ok { A } else if b, ok := E.(U); ok { B } else { C }
+//                                                 →   switch tsw_N := E.(type) { case T: A; case U: B; default: C }
 //
 // The first rewrite is applied only when it is meaning-preserving for the analyses: C is a plain name or field
 // selection, the body neither assigns i nor C nor an element of C, takes no address of i or of an element, and has
@@ -36,6 +38,10 @@ func canonList(fset *token.FileSet, list []ast.Stmt) []ast.Stmt {
 		switch x := s.(type) {
 		case *ast.ForStmt:
 			if r := indexLoopToRange(fset, x); r != nil {
+				list[i] = r
+			}
+		case *ast.IfStmt:
+			if r := assertChainToTypeSwitch(fset, x); r != nil {
 				list[i] = r
 			}
 		case *ast.RangeStmt:
@@ -294,4 +300,102 @@ func keyOnlyRange(fset *token.FileSet, x *ast.RangeStmt) {
 	if r, ok := indexLoopToRange(fset, fs).(*ast.RangeStmt); ok && r != nil && r.Value != nil {
 		x.Key, x.Value = r.Key, r.Value
 	}
+}
+
+// assertChainToTypeSwitch rewrites a chain of two or more comma-ok type assertions on the same plain expression into
+// the type switch it spells out. It declines (returns nil) when a binding or the ok variable is used outside the
+// branch it guards, which a type switch cannot express.
+func assertChainToTypeSwitch(fset *token.FileSet, x *ast.IfStmt) ast.Stmt {
+	type link struct {
+		is   *ast.IfStmt
+		bind *ast.Ident
+		ok   *ast.Ident
+		typ  ast.Expr
+	}
+	var links []link
+	var subject ast.Expr
+	var deflt *ast.BlockStmt
+	for cur := x; cur != nil; {
+		as, ok := cur.Init.(*ast.AssignStmt)
+		if !ok || as.Tok != token.DEFINE || len(as.Lhs) != 2 || len(as.Rhs) != 1 {
+			return nil
+		}
+		ta, ok := as.Rhs[0].(*ast.TypeAssertExpr)
+		if !ok || ta.Type == nil || !plainName(ta.X) {
+			return nil
+		}
+		b, ok1 := as.Lhs[0].(*ast.Ident)
+		o, ok2 := as.Lhs[1].(*ast.Ident)
+		c, ok3 := cur.Cond.(*ast.Ident)
+		if !ok1 || !ok2 || !ok3 || o.Name == "_" || c.Name != o.Name {
+			return nil
+		}
+		if subject == nil {
+			subject = ta.X
+		} else if !sameExpr(subject, ta.X) {
+			return nil
+		}
+		links = append(links, link{cur, b, o, ta.Type})
+		switch e := cur.Else.(type) {
+		case nil:
+			cur = nil
+		case *ast.IfStmt:
+			cur = e
+		case *ast.BlockStmt:
+			deflt = e
+			cur = nil
+		default:
+			return nil
+		}
+	}
+	if len(links) < 2 {
+		return nil
+	}
+	name := fmt.Sprintf("tsw_%d", fset.Position(x.Pos()).Line)
+	used := false
+	for _, l := range links {
+		bad := false
+		ast.Inspect(x, func(n ast.Node) bool {
+			id, ok := n.(*ast.Ident)
+			if !ok || id.Obj == nil {
+				return !bad
+			}
+			inBody := l.is.Body.Pos() <= id.Pos() && id.Pos() < l.is.Body.End()
+			switch {
+			case id.Obj == l.ok.Obj && id != l.ok && id != l.is.Cond:
+				bad = true
+			case id.Obj == l.bind.Obj && id != l.bind && l.bind.Name != "_":
+				if !inBody {
+					bad = true
+				}
+			}
+			return !bad
+		})
+		if bad {
+			return nil
+		}
+	}
+	var clauses []ast.Stmt
+	for _, l := range links {
+		if l.bind.Name != "_" {
+			obj := l.bind.Obj
+			ast.Inspect(l.is.Body, func(n ast.Node) bool {
+				if id, ok := n.(*ast.Ident); ok && id.Obj == obj && obj != nil {
+					id.Name = name
+					used = true
+				}
+				return true
+			})
+		}
+		clauses = append(clauses, &ast.CaseClause{Case: l.is.Pos(), List: []ast.Expr{l.typ}, Colon: l.is.Body.Lbrace, Body: l.is.Body.List})
+	}
+	if deflt != nil {
+		clauses = append(clauses, &ast.CaseClause{Case: deflt.Pos(), Colon: deflt.Lbrace, Body: deflt.List})
+	}
+	ta := &ast.TypeAssertExpr{X: subject, Lparen: subject.End()}
+	var assign ast.Stmt = &ast.ExprStmt{X: ta}
+	if used {
+		assign = &ast.AssignStmt{Lhs: []ast.Expr{&ast.Ident{NamePos: x.Pos(), Name: name}}, TokPos: x.Pos(), Tok: token.DEFINE, Rhs: []ast.Expr{ta}}
+	}
+	return &ast.TypeSwitchStmt{Switch: x.Pos(), Assign: assign, Body: &ast.BlockStmt{Lbrace: x.Body.Lbrace, List: clauses, Rbrace: x.End()}}
 }
